@@ -227,6 +227,37 @@ theorem C05_non_stanza_untouched (cfg : Cfg) (fresh : String) (d : Int) (n : Nam
   · simp [h]
   · simp [h]
 
+/-- **one namespace declaration per start tag**: whenever the name handed to the XML encoder
+carries a namespace (for which the encoder writes the `xmlns` declaration itself) no attribute
+named `xmlns` is left, at any depth, stanza or not, whatever spelling the caller used (name
+without namespace plus explicit `xmlns` attribute included): the start tag never declares the
+default namespace twice -/
+theorem C05_single_ns_declaration (cfg : Cfg) (fresh : String) (d : Int) (n : Name) (as : List Attr)
+    (m : Name) (hm : tokName (encStart cfg fresh d n as) = some m) (hsp : m.space ≠ "") :
+    ∀ a ∈ startAttrs (encStart cfg fresh d n as), a.name.loc ≠ "xmlns" := by
+  unfold encStart at hm ⊢
+  by_cases hc : (d == 1 && isStanzaEmptySpace n) = true
+  · rw [if_pos hc] at hm ⊢
+    simp only [tokName, Option.some.injEq] at hm
+    simp only [startAttrs, dropXmlns, hm, bne_iff_ne, ne_eq, hsp, not_false_eq_true, if_true]
+    intro a ha
+    simpa [notXmlns] using (List.mem_filter.mp ha).2
+  · rw [if_neg hc] at hm ⊢
+    simp only [tokName, Option.some.injEq] at hm
+    subst hm
+    simp only [startAttrs, dropXmlns, bne_iff_ne, ne_eq, hsp, not_false_eq_true, if_true]
+    intro a ha
+    simpa [notXmlns] using (List.mem_filter.mp ha).2
+
+/-- the order of the two steps matters: with the `xmlns` loop BEFORE the stamping step a
+top-level `<message xmlns="jabber:client">` given with no namespace in its name keeps the
+attribute and gets the stream namespace in its name as well: two declarations, not
+well-formed -/
+theorem C05_early_filter_duplicates_xmlns :
+    let t := encStartEarly ⟨nsClient, ""⟩ "ID#" 1 ⟨"", "message"⟩ [⟨⟨"", "xmlns"⟩, nsClient⟩]
+    tokName t = some ⟨nsClient, "message"⟩ ∧ ∃ a ∈ startAttrs t, a.name.loc = "xmlns" := by
+  decide
+
 /-! ### The entry points hand exactly one complete element to the encoder -/
 
 /-- `Send`: the first element of the reader, whole, and nothing of what follows it -/
